@@ -171,6 +171,18 @@ func init() {
 		if (err != nil) != (res == nil) {
 			return "error-and-result-disagree"
 		}
+		if str(a["class"]) == "empty" || str(a["class"]) == "notfound" {
+			// the same command as an INSPECTION of a layout: an inspection whose command is empty or
+			// cannot be started fails (seeded change c14-empty-inspection-command-accepted)
+			cwd := filepath.Join(base, "icwd")
+			os.MkdirAll(cwd, 0o755)
+			os.Chdir(cwd)
+			_, ierr := intoto.RunInspections(intoto.Layout{Inspect: []intoto.Inspection{{Type: "inspection", Run: argv, SupplyChainItem: intoto.SupplyChainItem{Name: "i"}}}}, "", false, false)
+			os.Chdir(origWD)
+			if ierr == nil {
+				return "inspection-accepted"
+			}
+		}
 		if len(argv) > 0 {
 			// InTotoRun with the same command: an error exactly when RunCommand gave one
 			md, rerr := intoto.InTotoRun("s", runDir, []string{}, []string{}, argv, pool()[4].Full, []string{"sha256"}, nil, nil, false, false, false)
